@@ -59,7 +59,7 @@ pub fn families() -> Vec<Box<dyn Family>> {
                 for or in gen::subranges(a.len()) {
                     for nr in gen::subranges(b.len()) {
                         for alg in ALGS {
-                            sub_case(alg, &a, or.clone(), &b, nr.clone(), 0xff, out);
+                            sub_case(alg, &a, or.clone(), &b, nr.clone(), 0x1ff, out);
                         }
                     }
                 }
@@ -77,7 +77,7 @@ pub fn families() -> Vec<Box<dyn Family>> {
                 let (a, b) = gen::rand_pair(&mut rng, if cfg.tiny { 10 } else { 400 });
                 let (or, nr) = gen::rand_ranges(&mut rng, a.len(), b.len());
                 let alg = ALGS[rng.below(3)];
-                let carrier = 1u32 << rng.below(8);
+                let carrier = 1u32 << rng.below(9);
                 out.sample(|| format!("alg={} old={} range {:?} new={} range {:?}", alg_name(alg), fmt_seq(&a), or, fmt_seq(&b), nr));
                 sub_case(alg, &a, or.clone(), &b, nr.clone(), carrier, out);
                 if idx % 8 == 0 && a.len() <= 40 && b.len() <= 40 {
@@ -125,7 +125,7 @@ pub fn families() -> Vec<Box<dyn Family>> {
                 let (or, nr) = if rng.chance(1, 2) { (0..a.len(), 0..b.len()) } else { gen::rand_ranges(&mut rng, a.len(), b.len()) };
                 let alg = ALGS[rng.below(3)];
                 out.sample(|| format!("alg={} structure={} old={} range {:?} new={} range {:?}", alg_name(alg), kind, fmt_seq(&a), or, fmt_seq(&b), nr));
-                sub_case(alg, &a, or, &b, nr, 0xff, out);
+                sub_case(alg, &a, or, &b, nr, 0x1ff, out);
             },
         ),
         family(
@@ -210,6 +210,144 @@ pub fn families() -> Vec<Box<dyn Family>> {
                 }
             },
         ),
+        family(
+            "non_reflexive_aliased",
+            "items that are NOT equal to themselves (f64 NaN; myers::diff and lcs::diff only ask for PartialEq) in ONE buffer that is both old and new: every buffer over {1.0, 2.0, NaN} up to length 5 x every pair of sub-ranges (identical, overlapping, disjoint) x {Myers, LCS} x {diff, diff_deadline(None)} + seeded random buffers up to 60 items; the trace monitor judges 'equal' with f64's own ==, so a NaN must never be reported equal to anything, not even to itself at the same address",
+            true,
+            4,
+            |cfg| gen::all_seqs(3, if cfg.tiny { 2 } else { 5 }).len() as u64 + cfg.n(300, 6000),
+            |idx, cfg, out| {
+                let seqs = gen::all_seqs(3, if cfg.tiny { 2 } else { 5 });
+                let vals = [1.0f64, 2.0, f64::NAN];
+                let exhaustive = (idx as usize) < seqs.len();
+                let buf: Vec<f64> = if exhaustive {
+                    seqs[idx as usize].iter().map(|x| vals[*x as usize]).collect()
+                } else {
+                    let mut rng = Rng::for_case(cfg.seed, "c01.nan", idx);
+                    let n = rng.below(if cfg.tiny { 6 } else { 60 });
+                    let k = 2 + rng.below(4);
+                    (0..n).map(|_| if rng.chance(1, 4) { f64::NAN } else { rng.below(k) as f64 }).collect()
+                };
+                out.sample(|| format!("one f64 buffer {:?} as old and new x sub-ranges x {{myers, lcs}}", buf));
+                let ranges: Vec<(std::ops::Range<usize>, std::ops::Range<usize>)> = if exhaustive {
+                    let mut v = Vec::new();
+                    for or in gen::subranges(buf.len()) {
+                        for nr in gen::subranges(buf.len()) {
+                            v.push((or.clone(), nr));
+                        }
+                    }
+                    v
+                } else {
+                    let mut rng = Rng::for_case(cfg.seed, "c01.nan.r", idx);
+                    let (or, nr) = gen::rand_ranges(&mut rng, buf.len(), buf.len());
+                    vec![(0..buf.len(), 0..buf.len()), (or.clone(), or.clone()), (or, nr)]
+                };
+                let eq = |o: usize, n: usize| buf[n] == buf[o];
+                for (or, nr) in ranges {
+                    for which in 0..4u8 {
+                        out.eval();
+                        let mut mon = crate::mon::TraceMon::new(&eq, or.clone(), nr.clone());
+                        let r = crate::engine::guard(|| match which {
+                            0 => similar::algorithms::myers::diff(&mut mon, &buf[..], or.clone(), &buf[..], nr.clone()),
+                            1 => similar::algorithms::lcs::diff(&mut mon, &buf[..], or.clone(), &buf[..], nr.clone()),
+                            2 => similar::algorithms::myers::diff_deadline(&mut mon, &buf[..], or.clone(), &buf[..], nr.clone(), None),
+                            _ => similar::algorithms::lcs::diff_deadline(&mut mon, &buf[..], or.clone(), &buf[..], nr.clone(), None),
+                        });
+                        let r = match r {
+                            Ok(Ok(())) => {
+                                mon.finish_check();
+                                Ok(mon)
+                            }
+                            Ok(Err(())) => {
+                                mon.failures.push(("trace.spurious_error", "the diff returned Err although the hook never failed".into()));
+                                Ok(mon)
+                            }
+                            Err(p) => Err(p),
+                        };
+                        let ctx = || format!("{} on ONE f64 buffer {:?} old range {:?} new range {:?}", ["myers::diff", "lcs::diff", "myers::diff_deadline(None)", "lcs::diff_deadline(None)"][which as usize], buf, or, nr);
+                        report_trace(out, "diff of non-reflexive items in an aliased buffer", &ctx, &r);
+                        out.count("non_reflexive_runs");
+                        if buf[or.clone()].iter().any(|x| x.is_nan()) && or == nr {
+                            out.nontrivial(&("nan", which, format!("{:?}", buf), or.start, or.end));
+                        }
+                    }
+                }
+            },
+        ),
+        family(
+            "reversed_empty_ranges",
+            "ranges given with start > end (both ends in bounds): every algorithm treats them as EMPTY ranges positioned at `start` - nothing is consumed on that side, the other side is deleted / inserted as one run whose carried index is that start, no panic; every pair over {0,1} up to length 4 x every reversed range on one or both sides x 3 algorithms x {Dispatch, Module} x {no deadline, never-expiring deadline, deadline expired at check #0}",
+            true,
+            4,
+            |cfg| {
+                let n = gen::all_seqs(2, if cfg.tiny { 2 } else { 4 }).len() as u64;
+                n * n
+            },
+            |idx, cfg, out| {
+                let seqs = gen::all_seqs(2, if cfg.tiny { 2 } else { 4 });
+                let (a, b) = gen::pair_of(seqs, idx);
+                let a: Vec<u32> = a.iter().map(|x| *x as u32).collect();
+                let b: Vec<u32> = b.iter().map(|x| *x as u32).collect();
+                out.sample(|| format!("old={:?} new={:?} x reversed (start > end) ranges x 3 algorithms", a, b));
+                let reversed = |len: usize| -> Vec<std::ops::Range<usize>> {
+                    let mut v = Vec::new();
+                    for s in 1..=len {
+                        for e in 0..s {
+                            v.push(s..e);
+                        }
+                    }
+                    v
+                };
+                let mut combos: Vec<(std::ops::Range<usize>, std::ops::Range<usize>)> = Vec::new();
+                for or in reversed(a.len()) {
+                    for nr in gen::subranges(b.len()) {
+                        combos.push((or.clone(), nr));
+                    }
+                    for nr in reversed(b.len()) {
+                        combos.push((or.clone(), nr));
+                    }
+                }
+                for nr in reversed(b.len()) {
+                    for or in gen::subranges(a.len()) {
+                        combos.push((or, nr.clone()));
+                    }
+                }
+                let eq = |o: usize, n: usize| a[o] == b[n];
+                let norm = |r: &std::ops::Range<usize>| if r.start > r.end { r.start..r.start } else { r.clone() };
+                for (or, nr) in combos {
+                    for alg in ALGS {
+                        for entry in [Entry::Dispatch, Entry::Module] {
+                            for dl in 0..3u8 {
+                                out.eval();
+                                out.count("reversed_range_runs");
+                                out.nontrivial(&("rev", alg_name(alg), &a, or.start, or.end, &b, nr.start, nr.end));
+                                match dl {
+                                    1 => similar::verif_hooks::set_clock(similar::verif_hooks::Clock::Fuel(u64::MAX)),
+                                    2 => similar::verif_hooks::set_clock(similar::verif_hooks::Clock::Fuel(0)),
+                                    _ => {}
+                                }
+                                let mut mon = crate::mon::TraceMon::new(&eq, norm(&or), norm(&nr));
+                                let r = crate::engine::guard(|| run_entry(entry, alg, &mut mon, &a[..], or.clone(), &b[..], nr.clone(), if dl > 0 { Some(far_deadline()) } else { None }, dl > 0));
+                                similar::verif_hooks::set_clock(similar::verif_hooks::Clock::Off);
+                                let r = match r {
+                                    Ok(Ok(())) => {
+                                        mon.finish_check();
+                                        Ok(mon)
+                                    }
+                                    Ok(Err(())) => {
+                                        mon.failures.push(("trace.spurious_error", "the diff returned Err although the hook never failed".into()));
+                                        Ok(mon)
+                                    }
+                                    Err(p) => Err(p),
+                                };
+                                let ctx = || format!("alg={} entry={:?} old={:?} range {:?} new={:?} range {:?} (start > end = empty range at start) deadline={}", alg_name(alg), entry, a, or, b, nr, ["none", "never expires", "expired at check #0"][dl as usize]);
+                                report_trace(out, "diff with a reversed (empty) range", &ctx, &r);
+                            }
+                        }
+                    }
+                }
+            },
+        ),
     ]
 }
 
@@ -266,7 +404,8 @@ fn full_pair(a: &[u8], b: &[u8], out: &mut Local) {
 
 /// `carriers` is a bit mask: 1 slice(+shift-equivalence), 2 StrictLookup, 4
 /// StrictLookup near usize::MAX, 8 IdentifyDistinct, 16 constant-hash items,
-/// 32 one shared buffer, 64 lookups straddling 2^32, 128 Vec vs VecDeque.
+/// 32 one shared buffer, 64 lookups straddling 2^32, 128 Vec vs VecDeque, 256 two lookup
+/// types viewing one object.
 fn sub_case(
     alg: Algorithm,
     a: &[u32],
@@ -438,6 +577,25 @@ fn sub_case(
         out.count("vec_vs_vecdeque_runs");
     }
 
+    // (9) TWO DIFFERENT lookup types at ONE address: both are repr(transparent) views of the same
+    // Vec (a ++ reversed b); the old view indexes it forwards, the new view backwards
+    if carriers & 256 != 0 {
+        let mut buf: Vec<u32> = a.to_vec();
+        buf.extend(b.iter().rev().copied());
+        let (fw, bw) = (FwdView::of(&buf), BwdView::of(&buf));
+        debug_assert!(std::ptr::eq(fw as *const FwdView as *const u8, bw as *const BwdView as *const u8));
+        out.eval();
+        let r = traced(entry, alg, fw, or.clone(), bw, nr.clone(), &eq, None, false);
+        if report_trace(out, "diff of two different lookup types that are views of ONE object (same address)", &ctx, &r) {
+            if let (Some(be), Ok(m)) = (&base_evs, &r) {
+                if *be != m.evs {
+                    out.violation("shift_equivalence", format!("{}: two views of one object give {} but separate slices give {}", ctx(), fmt_evs(&m.evs), fmt_evs(be)));
+                }
+            }
+        }
+        out.count("two_views_one_address_runs");
+    }
+
     // (5) constant-hash items
     if carriers & 16 != 0 {
         let ca: Vec<CollidingElem> = a.iter().map(|x| CollidingElem(*x)).collect();
@@ -445,6 +603,37 @@ fn sub_case(
         out.eval();
         let r = traced(entry, alg, &ca[..], or.clone(), &cb[..], nr.clone(), &eq, None, false);
         report_trace(out, "diff of constant-hash items", &ctx, &r);
+    }
+}
+
+/// forwards view of a Vec (same address as the Vec itself)
+#[repr(transparent)]
+struct FwdView(Vec<u32>);
+/// backwards view of a Vec (same address as the Vec itself): index i is item len-1-i
+#[repr(transparent)]
+struct BwdView(Vec<u32>);
+impl FwdView {
+    fn of(v: &Vec<u32>) -> &FwdView {
+        // SAFETY: repr(transparent) wrapper
+        unsafe { &*(v as *const Vec<u32> as *const FwdView) }
+    }
+}
+impl BwdView {
+    fn of(v: &Vec<u32>) -> &BwdView {
+        // SAFETY: repr(transparent) wrapper
+        unsafe { &*(v as *const Vec<u32> as *const BwdView) }
+    }
+}
+impl std::ops::Index<usize> for FwdView {
+    type Output = u32;
+    fn index(&self, i: usize) -> &u32 {
+        &self.0[i]
+    }
+}
+impl std::ops::Index<usize> for BwdView {
+    type Output = u32;
+    fn index(&self, i: usize) -> &u32 {
+        &self.0[self.0.len() - 1 - i]
     }
 }
 
